@@ -246,6 +246,7 @@ def run(M, rec, tier, seed, k, n):
         W.USER_KINDS["prob"] = 0.0
         W.TURNING_COUNTS["prob"] = 0.08
         mon.uninstall()
+    W.complex_step_turn_rates(M, rec, rng, PROP, 30 if tier == "quick" else 300, "conservation")
     if k == 0:
         W.repo_tests(rec, [PROP])
 
